@@ -33,6 +33,12 @@ func (f *Expand) Apply(inputs []tensor.Tensor) ([]tensor.Tensor, error) {
 		return nil, err
 	}
 
+	for _, dimSize := range shape {
+		if dimSize < 1 {
+			return nil, ops.ErrDimension("expand shape has to consist of positive dim sizes")
+		}
+	}
+
 	// Expand broadcasts both ways: a target shape with fewer dimensions than the
 	// input tensor is padded with ones at the front.
 	for len(shape) < len(input.Shape()) {
